@@ -209,6 +209,9 @@ func (w *World) Bulk(batch []*Rec, csize int) {
 		}
 		members := batch[pos:end]
 		exp, wants := w.expectBatch(members, -1)
+		for i, x := range members {
+			w.lastPut = append(w.lastPut, putRecord{X: x, Want: wants[i], Class: errClass(err), Exp: exp.Verdict, Api: "InsertOrUpdateBulk", Batch: true})
+		}
 		accepted := false
 		switch exp.Verdict {
 		case "accept":
